@@ -10,6 +10,7 @@ CONSTANTS
   Weak_MismatchAlsoCountsAsMatch = FALSE
   Weak_NoWitnessNeeded = FALSE
   Weak_BackwardsUnbound = FALSE
+  Weak_ReplacementHashUnchecked = FALSE
 INIT CaseInit
 NEXT CaseNext
 INVARIANTS VerifierSound AdjacentSound NonAdjacentSound BackwardsSound GenuineAccepted
